@@ -1,3 +1,57 @@
+/-
+  C10, the `SDict` route in OpenFOAM flavour -- `DictWriter.write(SDict(d), 'x.foam')` / `SDict(d).dump('x.foam')`, then
+  `DictReader.read('x.foam')`: what is written, what comes back, and that a second write does not add a second header.
+
+  What is proved (model: `fmtSD .foam`, `insertBlockComments`, `parseNative`, `readFile`, `writeStep`, `writeText`, `apiRun`):
+
+    `C10_sd_text`                 for EVERY dict `d`: `fmtSD .foam { data := d } = some (foamHeaderText ++ fmtPlain .foam d)`;
+                                  `foamHeaderText` = `banner ++ "\n" ++ foamFileText ++ sepLine ++ "\n"`, the three parts spelled
+                                  out as string literals (`banner_str`, `foamFileText_str`, `sepLine_str`) and equal to the
+                                  generated header of the model (`foamHeaderText_eq`)
+    `C10_sd_starts_with_banner`   EVERY SDict none of whose block comments has its placeholder entry in the data (in
+                                  particular `blockC = []`: `C10_sd_starts_with_banner'`), any line comments / includes / data:
+                                  if `fmtSD .foam` succeeds the text is `foamHeaderText ++ r` (banner first, then the
+                                  `FoamFile` block, then the separator line); `insertBlock_none`
+    `C10_roundtrip_sd`            hypotheses `Hyp d c target` = those of `C10.C10_roundtrip_file` + `NoFoamFileKey d`:
+                                  the text written is `sdText d`; `readFile` on it succeeds and returns EXACTLY `foamSD i D'`
+                                  (`D' = normEs (dropUnderscoreEs .foam d)`, `i` = first id the counter hands out):
+                                    data   = `BLOCKCOMMENT000000 ↦ BLOCKCOMMENT000000`,
+                                             `FoamFile ↦ {version: 2.0 (float), format: 'ascii', class: 'dictionary', object: 'foamDict'}`,
+                                             `LINECOMMENT<i> ↦ LINECOMMENT<i>`, then the entries of `D'` in order
+                                    blockC = `[(0, banner)]`, lineC = `[(i, sepLine)]`, no includes, no expressions;
+                                  `dropHeaderEntries` (placeholder entries and `FoamFile` out) gives `D'`; `D'` has no `_` key
+    `C10_sd_header_once`          writing the SDict read gives the same bytes (fixed point); `C10_sd_header_once'`:
+                                  `fmtSD .foam (foamSD i D) = fmtSD .foam { data := D }` on the Foam domain (`write_foamSD`)
+    `C10_sd_writeStep_append`     the same through `writeStep` (append mode, nothing merged): the file keeps its bytes
+    `C10_sd_writeText`, `C10_sd_api`   through Model/Api.lean: `writeText` on a fresh `.foam` target; `apiRun [dump, read]`
+    `read_foam_parse`             the reader (`parseNative`, comments on) on `foamHeader ++ fmtPlain .foam D`
+
+  Deviations from the statement as asked for (both with machine-checked witnesses, replayed on the real code):
+    * `C10_roundtrip_sd_statement_false`: removing "the block-comment placeholder entry and the `FoamFile` entry" does NOT
+      leave the data: the separator line `// * * * … //` of the header is a line comment, read back as a THIRD entry
+      `LINECOMMENT%06d` (it draws an id from the global counter).  Witness `SDict({})`.
+    * `NoFoamFileKey d` is needed for the statement in this form: `exFF_text`, `exFF_read`, `exFF_lost` — for
+      `SDict({'FoamFile': {'x': 'y'}})` the file holds two `FoamFile` blocks, the reader keeps the later one at the place of
+      the first; taking the header entries out leaves `{}` although the dict was not empty.  (Not a defect: C10 itself excepts
+      "the FoamFile header entry".)
+    * the write is `fmtSD .foam { data := normEs d }` (= `writeText` / `SDict.dump` on a fresh target: `_retype_values`, then
+      `to_string`); `writeStep` with a fresh target models builtin-dict sources only (`fmtPlain`), its SDict route is the
+      append mode, covered by `C10_sd_writeStep_append`.
+
+  Assumed: `DomC01 .foam D'` (no `"` in strings, …), at most `counterLimit + 1` quoted strings, a counter state that can
+  occur, a target that is no `.json`/`.xml`/`.ssd` path and is normalised (`C10.foamPath_dispatch`: `.foam` is fine).
+  NOT covered: SDicts with own block/line comments or includes beyond `C10_sd_starts_with_banner` (a first block comment
+  without ` C++ ` marker gets the header put in front of the comment, wherever its placeholder stands: `C10.C10_banner_first_comment`,
+  finding D28); a file system with other files (single-file `FS`, as in `C10.C10_roundtrip_file`); `order = true`.
+
+  Route: the written text is an admissible layout (`foam_layout`, `GapsOKC`) of the commented document `foamDoc es`
+  (`.blockC bannerBody`, entry `FoamFile`, `.lineC sepBody`, then the lifted plain document `liftEs es`), so
+  `C12.C12_read_commented` applies (with `C12W.parseNative_nl` for the missing gap in front of the banner);
+  `denC_foamDoc` computes its meaning, `foamSD_clean` (via `C12W.clean_fix`) shows `_clean` does nothing.
+  Technical: the kernel must never be made to evaluate `foamHeader` (`String.toList` on a long literal): `sd_text_aux`.
+
+  Non-vacuity: `exD` = `{'a': 1, 's': {'_x': 2, 'y': '2'}, '_top': 'q', 'k': 'x y'}` (`exHyp`, `exD_text`, `exD_roundtrip`).
+-/
 import DictIO.Props.C10file
 import DictIO.Props.C01dump
 import DictIO.Props.C12write
@@ -945,6 +999,32 @@ theorem C10_sd_header_once' {i : Nat} (hi : i ≤ 999999) {D : Entries} (hdom : 
     rwa [C01.keys_normEs] at this
   rw [write_foamSD hi hdom hu hk, C10_sd_text, foamHeaderText_eq]
 
+/-- **through `writeStep`** (Model/Writer.lean; its `SDict` route is the append mode): `DictWriter.write({}, target,
+    mode='a')` on a file that holds the text written for `SDict(d)` re-reads the file, merges nothing into it and
+    writes the SDict read — the file keeps its bytes (one banner, one `FoamFile` block). -/
+theorem C10_sd_writeStep_append {d : Entries} {c : Counter} {target : Comps} (ev : Str → EvalResult)
+    (H : Hyp d c target) :
+    ∃ c', writeStep ev .foam target (some (sdText d)) ['a'] false [] c = .ok (sdText d, c') := by
+  obtain ⟨c', _, hread⟩ := readFile_sd ev H
+  have hu : C10.NoUnderscoreEs (normEs (dropUnderscoreEs .foam d)) := by rw [C10.normEs_drop]; exact C10.C10_underscore _
+  obtain ⟨hp, hn⟩ := C10.norm_invariants_foam H.dom
+  rw [C01.normEs_idem] at hp hn
+  have hff := noFoamFile_keys (noFoamFile_dropped H.noFF)
+  have hi := C13.next_le H.hc
+  have hmerge : (foamSD (Counter.next Gen.counterLimit c).1 (normEs (dropUnderscoreEs .foam d))).merge (.plain (normEs [])) =
+      foamSD (Counter.next Gen.counterLimit c).1 (normEs (dropUnderscoreEs .foam d)) := by
+    have e : normEs [] = [] := by simp only [normEs]
+    rw [e]
+    unfold SD.merge
+    simp only [Arg.data, C07.mergeD_nil, SD.postMerge]
+    exact foamSD_clean hi hp hn hff
+  have hwrite : fmtSD .foam (foamSD (Counter.next Gen.counterLimit c).1 (normEs (dropUnderscoreEs .foam d))) =
+      some (sdText d) := (write_foamSD hi H.dom hu (C12.noPh_keys hp)).trans (by rw [sdText_dropped])
+  refine ⟨c', ?_⟩
+  have hread' : readFile ev [(target, .native (sdText d))] { order := false } c target =
+      .ok (.ok (foamSD (Counter.next Gen.counterLimit c).1 (normEs (dropUnderscoreEs .foam d))) c') := hread
+  simp only [writeStep, beq_self_eq_true, if_true, hread', hmerge, Bool.false_eq_true, if_false, hwrite]
+
 /-! ### the same through the API model (`writeText`, `apiRun`: Model/Api.lean) -/
 
 theorem flavor_foam {p : Comps} (h : C10.isFoamPath p = true) : flavorOfPath p = some .foam := by
@@ -1042,14 +1122,10 @@ theorem exD_roundtrip (ev : Str → EvalResult) :
     ∃ c', readFile ev [(C10.exTarget, .native (sdText exD))] {} none C10.exTarget = .ok (.ok (foamSD 0 exBack) c') ∧
       fmtSD .foam (foamSD 0 exBack) = some (sdText exD) ∧ dropHeaderEntries (foamSD 0 exBack).data = exBack := by
   obtain ⟨h1, ⟨c', _, h2⟩, h3, _⟩ := C10_roundtrip_sd ev exHyp
-  obtain ⟨sd, c'', _, h4, h5⟩ := C10_sd_header_once ev exHyp
   rw [exD_back] at h2 h3
+  have hu : C10.NoUnderscoreEs exBack := by rw [← exD_back, C10.normEs_drop]; exact C10.C10_underscore _
   refine ⟨h1, c', h2, ?_, h3⟩
-  have e : readFile ev [(C10.exTarget, .native (sdText exD))] {} none C10.exTarget = .ok (.ok (foamSD 0 exBack) c') := h2
-  rw [e] at h4
-  injection h4 with h4
-  injection h4 with h4 _
-  rw [h4]; exact h5
+  rw [C10_sd_header_once' (by decide) exBack_dom hu, C10_sd_text, sdText_dropped, exD_back, foamHeaderText_eq]
 
 /-! ### the statement as first asked for is false: there is a third header entry -/
 
@@ -1074,9 +1150,8 @@ theorem C10_roundtrip_sd_statement_false :
   obtain ⟨sd, c', h1, h2⟩ := h (fun _ => .unsupported) [] none C10.exTarget H
   obtain ⟨c'', _, h3⟩ := readFile_sd (fun _ => .unsupported) H
   rw [h3] at h1
-  injection h1 with h1
-  injection h1 with h1 _
-  rw [← h1] at h2
+  have h1' := (ReadOut.ok.inj (Except.ok.inj h1)).1
+  rw [← h1'] at h2
   have e : dropBlockAndFoamFile (foamSD 0 []).data = [lineEntry 0] := by
     show List.filter _ (C12.hdrEntry :: foamFileEntry :: lineEntry 0 :: []) = _
     have b1 : containsPh kwBlock C12.hdrPh = true := C12.hdrPh_block
@@ -1098,7 +1173,12 @@ def exFFText : Str :=
     ['y', ';', '\n', '}', '\n'])
 
 theorem exFF_text : fmtSD .foam { data := normEs exFF } = some exFFText := by
-  rw [C10_sd_text]
+  have e1 : hoistPlaceholders (dropUnderscoreEs .foam (normEs exFF)) = exFF := by decide +kernel
+  have e2 : fmtEntries .foam 0 exFF = ['F', 'o', 'a', 'm', 'F', 'i', 'l', 'e', '\n', '{', '\n', ' ', ' ', ' ', ' ', 'x'] ++
+      spaces 25 ++ ['y', ';', '\n', '}', '\n'] := by
+    simp only [exFF, fmtEntries, formatKey, keyStr, formatScalar]
+    decide +kernel
+  rw [C10_sd_text, C10.C10_input_unchanged, e1, e2]
   exact congrArg (fun t => some (foamHeaderText ++ t)) (by decide +kernel)
 
 /-- reading it: the dict's own `FoamFile` entry has overwritten the header's (same key, written later), at the
@@ -1111,5 +1191,23 @@ theorem exFF_lost : dropHeaderEntries [C12.hdrEntry,
     (.str "FoamFile".toList, .dict [(.str "x".toList, .leaf (.str "y".toList))]), lineEntry 0] = [] ∧
     normEs (dropUnderscoreEs .foam exFF) = exFF ∧ ¬ NoFoamFileKey exFF := by
   refine ⟨by decide +kernel, by decide +kernel, by decide⟩
+
+/-
+#print axioms C10_sd_text                        -- [propext, Classical.choice, Quot.sound]
+#print axioms C10_sd_starts_with_banner          -- [propext, Classical.choice, Quot.sound]
+#print axioms C10_roundtrip_sd                   -- [propext, Classical.choice, Quot.sound]
+#print axioms C10_sd_header_once                 -- [propext, Classical.choice, Quot.sound]
+#print axioms C10_sd_header_once'                -- [propext, Classical.choice, Quot.sound]
+#print axioms C10_sd_writeStep_append            -- [propext, Classical.choice, Quot.sound]
+#print axioms C10_sd_writeText                   -- [propext, Classical.choice, Quot.sound]
+#print axioms C10_sd_api                         -- [propext, Classical.choice, Quot.sound]
+#print axioms read_foam_parse                    -- [propext, Classical.choice, Quot.sound]
+#print axioms exD_roundtrip                      -- [propext, Classical.choice, Quot.sound]
+#print axioms exD_text                           -- [propext, Classical.choice, Quot.sound]
+#print axioms C10_roundtrip_sd_statement_false   -- [propext, Classical.choice, Quot.sound]
+#print axioms exFF_text                          -- [propext, Classical.choice, Quot.sound]
+#print axioms exFF_read                          -- [propext, Classical.choice, Quot.sound]
+#print axioms exFF_lost                          -- [propext, Classical.choice, Quot.sound]
+-/
 
 end DictIO.C10sd
